@@ -172,7 +172,13 @@ def normalize_pattern(pat):
                                 ok = False
             if not ok:
                 subs[n] = None
-    return {"comps": comps, "trailing": pat["trailing"], "subs": subs}
+    result = {"comps": comps, "trailing": pat["trailing"], "subs": subs}
+    # A directory-spanning substitution may not create a '.' or '..' component either.
+    plain = render(result, names_as={n: (sub or "*") for n, sub in subs.items()})
+    if plain is None or any(c in (".", "..") for c in plain.split("/")):
+        result["subs"] = {n: (None if sub is not None and "/" in sub else sub)
+                          for n, sub in subs.items()}
+    return result
 
 
 def count_stars(pat):
@@ -293,15 +299,18 @@ def _label(pat, regex_pattern, path, direction, existing=None):
 
     if direction == "unexpected" and existing is not None and path not in existing:
         return "nonexistent-directory-recorded-for-recursive-pattern"
-    if direction == "unexpected":
-        repaired = _NEG_CLASS.sub("[^/", regex_pattern)
-        if repaired != regex_pattern and re.fullmatch(regex_pattern, path) and \
-                not re.fullmatch(repaired, path):
+    if direction == "unexpected" and re.fullmatch(regex_pattern, path):
+        repaired_a = _NEG_CLASS.sub("[^/", regex_pattern)
+        if repaired_a != regex_pattern and not re.fullmatch(repaired_a, path):
             return "negated-class-matches-separator"
-        repaired = _repair_empty_last(pat, regex_pattern)
-        if repaired is not None and re.fullmatch(regex_pattern, path) and \
-                not re.fullmatch(repaired, path):
+        repaired_c = _repair_empty_last(pat, regex_pattern)
+        if repaired_c is not None and not re.fullmatch(repaired_c, path):
             return "last-component-matches-empty"
+        # both recorded causes together (each alone leaves another wrong parse of the path)
+        repaired_ac = _repair_empty_last(pat, repaired_a)
+        if repaired_ac is not None and repaired_a != regex_pattern and \
+                not re.fullmatch(repaired_ac, path):
+            return "negated-class-matches-separator"
     if direction == "missing":
         if path.endswith("/") and not re.fullmatch(regex_pattern, path) and \
                 re.fullmatch(regex_pattern, path[:-1]):
